@@ -20,6 +20,10 @@ class PathAbort(BaseException):
     """path abandoned as inconclusive (cap, inexact arithmetic, unsupported operation)"""
 
 
+class PathTimeout(BaseException):
+    """a single path exceeded its wall-clock allowance (termination obligations)"""
+
+
 class Infeasible(BaseException):
     """an assumption made the path condition unsatisfiable: not a path at all"""
 
@@ -561,7 +565,8 @@ def bool_term(x):
 class Engine(object):
     """replay-based DFS path explorer"""
 
-    def __init__(self, width=72, timeout_ms=20000, max_paths=20000, max_seconds=600, conc_cap=512):
+    def __init__(self, width=72, timeout_ms=20000, max_paths=20000, max_seconds=600, conc_cap=512, path_seconds=None):
+        self.path_seconds = path_seconds
         self.width = width
         self.s = z3.Solver()
         self.s.set('timeout', timeout_ms)
@@ -748,7 +753,26 @@ class Engine(object):
             Ctx.cur = self
             try:
                 try:
-                    r = fn(self)
+                    if self.path_seconds:
+                        import signal
+                        p_t0 = time.time()
+                        p_s0 = self.stats['solver_s']
+
+                        def _alarm(sig, frm):
+                            # only interpreter time counts: solver time has its own timeout
+                            spent = (time.time() - p_t0) - (self.stats['solver_s'] - p_s0)
+                            if spent >= self.path_seconds:
+                                raise PathTimeout()
+                            signal.setitimer(signal.ITIMER_REAL, max(0.5, self.path_seconds - spent))
+                        signal.signal(signal.SIGALRM, _alarm)
+                        signal.setitimer(signal.ITIMER_REAL, self.path_seconds)
+                    try:
+                        r = fn(self)
+                    finally:
+                        if self.path_seconds:
+                            signal.setitimer(signal.ITIMER_REAL, 0)
+                except PathTimeout:
+                    r = ('TIMEOUT', self.model_inputs(self.s.model()) if self._check() == 'sat' else {})
                 except PathAbort as a:
                     self.stats['aborted'] += 1
                     r = ('ABORT', str(a))
